@@ -49,6 +49,7 @@ from ..generic_provider import (
 )
 from ..iterable_provider import IterableProvider
 from ..json_schema.providers import InlineJSONSchemaProvider, JSONSchemaRefProvider
+from ..load_error import TypeLoadError, ValueLoadError
 from ..model.crown_definitions import ExtraSkip
 from ..model.dumper_provider import ModelDumperProvider
 from ..model.loader_provider import ModelLoaderProvider
@@ -68,6 +69,18 @@ from .provider import (
     loader,
     name_mapping,
 )
+
+
+def _constructor_loader(tp):
+    def constructor_loader(data):
+        try:
+            return tp(data)
+        except ValueError as e:  # including AddressValueError and NetmaskValueError
+            raise ValueLoadError(str(e), data)
+        except (TypeError, AttributeError):
+            raise TypeLoadError(str, data)
+
+    return constructor_loader
 
 
 class FilledRetort(OperatingRetort, ABC):
@@ -104,7 +117,7 @@ class FilledRetort(OperatingRetort, ABC):
 
         *chain.from_iterable(
             (
-                loader(tp, tp),
+                loader(tp, _constructor_loader(tp)),
                 dumper(tp, tp.__str__),  # type: ignore[arg-type]
             )
             for tp in [
@@ -116,7 +129,7 @@ class FilledRetort(OperatingRetort, ABC):
         ),
         *chain.from_iterable(
             (
-                loader(tp, tp),
+                loader(tp, _constructor_loader(tp)),
                 dumper(tp, tp.__fspath__),  # type: ignore[attr-defined]
             )
             for tp in [
